@@ -1,5 +1,9 @@
 import OVM.Refine.DeleteFrames
 import OVM.Refine.Inv
+import OVM.Refine.CacheClosed
+import OVM.Refine.CacheSet
+import OVM.Refine.CacheImmediate
+import OVM.Refine.CacheAssembly
 /-
   C04 — garbage collection preserves the logical mesh and remaps tracked handles.
   Proved here for every state:
@@ -137,5 +141,191 @@ example :
                         props := { v := [{ key := "t", dflt := 0, vals := [7, 8, 9] }] } }
     k.collectGarbage.nV = 2 ∧ k.collectGarbage.edges = [(0, 1)] ∧ k.collectGarbage.needsGC = false ∧
     k.collectGarbage.props.v = [{ key := "t", dflt := 0, vals := [7, 9] }] := by decide +kernel
+
+end OVM.Props.C04
+
+/-! ======================= appended by builder K4 (erase / GC / set side of rung B) ======================= -/
+namespace OVM.Props.C04
+open OVM OVM.Kernel
+
+/-! ------------------------------------------------------------------------------------------
+    Rung B, erase side (builder K4): `set_*`, immediate deletion with index shifting and
+    `collect_garbage` keep the cache invariant `WF = LenInv ∧ RangeInv ∧ CacheInv`
+    (OVM/Refine/CacheSet.lean, CacheErase.lean, CacheGC.lean, CacheClosed.lean).
+    ------------------------------------------------------------------------------------------ -/
+
+/-- **`set_edge` / `set_face` / `set_cell` keep the cache invariant** for an in-range, NOT-deleted entity and
+    in-range new handles (cc:503-592).  Liveness is needed: the caches are compared with scans over the
+    not-deleted entities and `set_*` links the entity unconditionally (TESTs `setEdge_deleted_breaks` … in
+    CacheSet.lean).  `set_cell` needs C01's `oneCell` before and after (`incident_cell_per_hf_` holds one cell
+    per halfface; it is cleared / overwritten unconditionally). -/
+theorem set_ops_keep_cache_invariant (k : Kernel) (hw : WF k) :
+    (∀ e a b, e < k.nE → k.eDeleted e = false → a < k.nV → b < k.nV →
+      WF (k.setEdge e a b) ∧ (k.setEdge e a b).oneCell = k.oneCell) ∧
+    (∀ f hes, f < k.nF → k.fDeleted f = false → (∀ h ∈ hes, h < k.nHE) →
+      WF (k.setFace f hes) ∧ (k.setFace f hes).oneCell = k.oneCell) ∧
+    (∀ c hfs, c < k.nC → k.cDeleted c = false → (∀ h ∈ hfs, h < k.nHF) → k.oneCell = true →
+      (k.setCell c hfs).oneCell = true → WF (k.setCell c hfs)) :=
+  ⟨fun e a b he hl ha hb => ⟨wf_setEdge he hl ha hb hw, oneCell_setEdge k e a b⟩,
+   fun f hes hf hl hr => ⟨wf_setFace hf hl hr hw, oneCell_setFace k f hes⟩,
+   fun _ _ hc hl hr h1 h1' => wf_setCell hc hl hr hw h1 h1'⟩
+
+/-- non-vacuity: the tetrahedron; `set_edge(0, 1, 0)` reverses edge 0 and the vertex cache follows -/
+example : WF tetK ∧ (0 : Nat) < tetK.nE ∧ tetK.eDeleted 0 = false ∧
+    (tetK.setEdge 0 1 0).edges.head? = some (1, 0) ∧ (tetK.setEdge 0 1 0).cacheInvB = true :=
+  ⟨wf_tetK, by decide, by decide, by decide, by decide⟩
+
+/-- **`collect_garbage` keeps the cache invariant** in index-shifting mode (`fast = false`): from a
+    well-formed state with C01's `oneCell` whose deleted flags are closure-consistent (`Closed`: nothing live
+    uses something flagged) it yields such a state again, and when it runs, no flagged cell / face / edge /
+    vertex remains.  `Closed` is necessary (TEST at the end of CacheGC.lean: an edge added onto a
+    deferred-deleted vertex is renamed to a loop by the vertex sweep) and is what the closure-deleting
+    `delete_*` of deferred mode maintain (`deferred_deletions_then_collect_garbage` below).
+    `_partial`: fast mode (`fast = true`: each sweep step swaps the victim to the last slot first) is not
+    covered here. -/
+theorem collect_garbage_keeps_cache_invariant_partial (k : Kernel) (hf : k.fast = false) (hw : WF k)
+    (h1 : k.oneCell = true) (hc : Closed k) :
+    (WF k.collectGarbage ∧ k.collectGarbage.oneCell = true ∧ Closed k.collectGarbage) ∧
+    (k.deferred = true → k.needsGC = true →
+      CellsLive k.collectGarbage ∧ FacesLive k.collectGarbage ∧ EdgesLive k.collectGarbage ∧
+      VertsLive k.collectGarbage) :=
+  ⟨wf_collectGarbage hf hw h1 hc, fun hd hg =>
+    have c := collected_collectGarbage hd hg hf hw h1 hc
+    ⟨c.cells, c.faces, c.edges, c.verts⟩⟩
+
+/-- the deferred-mode invariant `DefInvC` (deferred, `WF`, `oneCell`, `Closed`) along a history of deletions -/
+theorem defInvC_run (k : Kernel) (hi : DefInvC k) (ops : List Op)
+    (hops : ∀ op ∈ ops, ∃ x, op = .deleteCell x ∨ op = .deleteFace x ∨ op = .deleteEdge x ∨ op = .deleteVertex x) :
+    DefInvC (k.run ops) ∧ (k.run ops).fast = k.fast := by
+  induction ops generalizing k with
+  | nil => exact ⟨hi, rfl⟩
+  | cons op t ih =>
+    simp only [run, List.foldl_cons]
+    obtain ⟨x, hx⟩ := hops op (by simp)
+    have hfa := deleteOps_deferred_fast hi.1.1 x
+    have step : DefInvC (k.step op).1 ∧ (k.step op).1.fast = k.fast := by
+      rcases hx with rfl | rfl | rfl | rfl
+      · exact ⟨defInvC_deleteCell x hi, hfa.1⟩
+      · exact ⟨defInvC_deleteFace x hi, hfa.2.1⟩
+      · exact ⟨defInvC_deleteEdge x hi, hfa.2.2.1⟩
+      · exact ⟨defInvC_deleteVertex x hi, hfa.2.2.2⟩
+    have := ih _ step.1 (fun o ho => hops o (by simp [ho]))
+    exact ⟨this.1, this.2.trans step.2⟩
+
+/-- **deferred deletions followed by `collect_garbage`** (index-shifting mode): from a well-formed deferred
+    state with `oneCell` and closure-consistent flags (e.g. no flag at all: `closed_of_allLive`), after ANY
+    history of `delete_cell / delete_face / delete_edge / delete_vertex` (any handles) and one
+    `collect_garbage`, the cache invariant and `oneCell` hold, and if something was pending no flagged entity
+    is left. -/
+theorem deferred_deletions_then_collect_garbage (k : Kernel) (hd : k.deferred = true) (hf : k.fast = false)
+    (hw : WF k) (h1 : k.oneCell = true) (hc : Closed k) (ops : List Op)
+    (hops : ∀ op ∈ ops, ∃ x, op = .deleteCell x ∨ op = .deleteFace x ∨ op = .deleteEdge x ∨ op = .deleteVertex x) :
+    let k' := (k.run ops).collectGarbage
+    WF k' ∧ k'.oneCell = true ∧ CacheInv k' ∧
+    ((k.run ops).needsGC = true → CellsLive k' ∧ FacesLive k' ∧ EdgesLive k' ∧ VertsLive k') := by
+  obtain ⟨hi, hfa⟩ := defInvC_run k ⟨⟨hd, hw, h1⟩, hc⟩ ops hops
+  have g := collect_garbage_keeps_cache_invariant_partial (k.run ops) (hfa.trans hf) hi.1.2.1 hi.1.2.2 hi.2
+  exact ⟨g.1.1, g.1.2.1, g.1.1.cache, fun hg => g.2 hi.1.1 hg⟩
+
+/-- the tetrahedron in index-shifting mode -/
+def tetS : Kernel := { tetK with fast := false }
+
+theorem wf_tetS : WF tetS :=
+  wf_of_fans_perm (k := tetK) rfl rfl rfl rfl rfl rfl rfl rfl rfl rfl rfl rfl rfl rfl rfl (fun _ => List.Perm.refl _) wf_tetK
+
+set_option maxRecDepth 8000 in
+/-- non-vacuity (a state with a pending deletion): the tetrahedron, `delete_vertex(0)` in deferred mode
+    flags the cell, three faces, three edges and the vertex; `collect_garbage` erases and renumbers; one
+    triangle is left and the caches equal the scans (executable invariant as a cross-check) -/
+example : tetS.deferred = true ∧ tetS.fast = false ∧ WF tetS ∧ tetS.oneCell = true ∧
+    Closed tetS ∧
+    (tetS.run [.deleteVertex 0]).needsGC = true ∧
+    ((tetS.run [.deleteVertex 0]).collectGarbage).nV = 3 ∧
+    ((tetS.run [.deleteVertex 0]).collectGarbage).edges = [(0, 1), (2, 0), (2, 1)] ∧
+    ((tetS.run [.deleteVertex 0]).collectGarbage).faces = [[3, 4, 1]] ∧
+    ((tetS.run [.deleteVertex 0]).collectGarbage).cells = [] ∧
+    ((tetS.run [.deleteVertex 0]).collectGarbage).cacheInvB = true :=
+  ⟨rfl, rfl, wf_tetS, by decide,
+   closed_of_allLive (by unfold FacesLive; decide) (by unfold EdgesLive; decide) (by unfold VertsLive; decide)
+     wf_tetS.range,
+   by decide, by decide, by decide, by decide, by decide, by decide⟩
+
+/-- **immediate deletion with index shifting keeps the cache invariant — the four cores** (`deferred = false`,
+    `fast = false`; cc:1359-1429, 1206-1340, 1041-1183, 936-1018): the slot is erased and every stored handle
+    and cache entry above it renumbered.  `delete_cell_core` needs only an in-range handle (its assertion) and
+    `oneCell`.  The lower cores need the upward-closure fact as stated: nothing of the level above is flagged
+    and no stored definition of the level above uses the victim — which `delete_face / delete_edge /
+    delete_vertex` establish by deleting the incident cells / faces / edges first (closure versions:
+    `immediate_deletion_keeps_cache_invariant` below, OVM/Refine/CacheImmediate.lean).  Without it the code
+    really misbehaves: `fixHalfList` drops the victim's half-entities from the users, and
+    `delete_vertex_core` renames the endpoint of an incident edge to the PREVIOUS vertex (cc:965-978).
+    `_partial`: the fast-mode variants (swap to the last slot, then pop) are builder K3's
+    (OVM/Refine/CacheFastDelete.lean). -/
+theorem immediate_deletion_keeps_cache_invariant_partial (k : Kernel) (hd : k.deferred = false)
+    (hf : k.fast = false) (hw : WF k) (h1 : k.oneCell = true) (h : Nat) :
+    (h < k.nC → WF (k.deleteCell h) ∧ (k.deleteCell h).oneCell = true) ∧
+    (h < k.nF → CellsLive k → (∀ c ∈ k.cells, ∀ a ∈ c, eOf a ≠ h) →
+      WF (k.deleteFaceCore h) ∧ (k.deleteFaceCore h).oneCell = true) ∧
+    (h < k.nE → FacesLive k → (∀ f ∈ k.faces, ∀ a ∈ f, eOf a ≠ h) →
+      WF (k.deleteEdgeCore h) ∧ (k.deleteEdgeCore h).oneCell = true) ∧
+    (h < k.nV → EdgesLive k → (∀ e ∈ k.edges, e.1 ≠ h ∧ e.2 ≠ h) →
+      WF (k.deleteVertexCore h) ∧ (k.deleteVertexCore h).oneCell = true) :=
+  ⟨fun hh => wf_deleteCellCore_shift hd hf hh hw h1,
+   fun hh hl hu => wf_deleteFaceCore_shift hd hf hh hw h1 hl hu,
+   fun hh hl hu => wf_deleteEdgeCore_shift hd hf hh hw h1 hl hu,
+   fun hh hl hu => wf_deleteVertexCore_shift hd hf hh hw h1 hl hu⟩
+
+/-- the tetrahedron in immediate index-shifting mode -/
+def tetI : Kernel := { tetK with deferred := false, fast := false }
+
+theorem wf_tetI : WF tetI :=
+  wf_of_fans_perm (k := tetK) rfl rfl rfl rfl rfl rfl rfl rfl rfl rfl rfl rfl rfl rfl rfl (fun _ => List.Perm.refl _) wf_tetK
+
+set_option maxRecDepth 8000 in
+/-- non-vacuity: `delete_cell(0)` then `delete_face_core(1)` on the tetrahedron in immediate index-shifting
+    mode: hypotheses hold (no cell left uses face 1), face slots 2,3 move down to 1,2, their halffaces in the
+    fans are renumbered, and the executable invariant agrees -/
+example : tetI.deferred = false ∧ tetI.fast = false ∧ WF tetI ∧ tetI.oneCell = true ∧ (0 : Nat) < tetI.nC ∧
+    CellsLive (tetI.deleteCell 0) ∧ (∀ c ∈ (tetI.deleteCell 0).cells, ∀ a ∈ c, eOf a ≠ 1) ∧
+    ((tetI.deleteCell 0).deleteFaceCore 1).faces = [[0, 2, 4], [9, 10, 3], [5, 11, 7]] ∧
+    ((tetI.deleteCell 0).deleteFaceCore 1).incHfs = [[0], [1], [3, 0], [1, 2], [5, 0], [1, 4], [5], [4], [3], [2], [5, 2], [3, 4]] ∧
+    ((tetI.deleteCell 0).deleteFaceCore 1).cacheInvB = true :=
+  ⟨rfl, rfl, wf_tetI, by decide, by decide, by unfold CellsLive; decide, by decide, by decide, by decide, by decide⟩
+
+
+/-- **immediate deletion with index shifting keeps the cache invariant — the closure versions**
+    `delete_cell / delete_face / delete_edge / delete_vertex` (`deferred = false`, `fast = false`) with an
+    in-range handle map `ImmInv` (immediate index-shifting mode, `WF`, `oneCell`, nothing flagged) to `ImmInv`:
+    the incident cells / faces / edges are deleted first, from the highest handle down, which establishes the
+    "no stored definition uses the victim" hypothesis of every erase stage
+    (`immediate_deletion_keeps_cache_invariant_partial`).  "Nothing flagged" is what immediate mode maintains:
+    flags only arise in deferred mode and `enable_deferred_deletion(false)` collects them first. -/
+theorem immediate_deletion_keeps_cache_invariant (k : Kernel) (hi : Shift.ImmInv k) (x : Nat) :
+    (x < k.nC → Shift.ImmInv (k.deleteCell x)) ∧ (x < k.nF → Shift.ImmInv (k.deleteFace x)) ∧
+    (x < k.nE → Shift.ImmInv (k.deleteEdge x)) ∧ (x < k.nV → Shift.ImmInv (k.deleteVertex x)) :=
+  ⟨fun h => Shift.immInv_deleteCell hi h, fun h => Shift.immInv_deleteFace hi h,
+   fun h => Shift.immInv_deleteEdge hi h, fun h => Shift.immInv_deleteVertex hi h⟩
+
+set_option maxRecDepth 8000 in
+/-- non-vacuity: the tetrahedron in immediate index-shifting mode satisfies `ImmInv`; `delete_vertex(0)`
+    removes the cell, three faces, three edges and the vertex, renumbers the rest, and two such deletions chain;
+    the executable invariant agrees (cross-check) -/
+example : Shift.ImmInv Shift.tetImm ∧ (0 : Nat) < Shift.tetImm.nV ∧
+    Shift.ImmInv (Shift.tetImm.deleteVertex 0) ∧ WF ((Shift.tetImm.deleteVertex 0).deleteVertex 1) ∧
+    (Shift.tetImm.deleteVertex 0).faces = [[3, 4, 1]] ∧ (Shift.tetImm.deleteVertex 0).nV = 3 ∧
+    (Shift.tetImm.deleteVertex 0).cacheInvB = true := by
+  have h0 := Shift.immInv_tetImm
+  have h1 := (immediate_deletion_keeps_cache_invariant _ h0 0).2.2.2 (by decide)
+  have h2 := (immediate_deletion_keeps_cache_invariant _ h1 1).2.2.2 (by decide)
+  exact ⟨h0, by decide, h1, h2.wf, by decide, by decide, by decide⟩
+
+/-- **assembly** (OVM/Refine/CacheAssembly.lean): every history of the driver vocabulary whose operations satisfy
+    the explicit side condition `OpOK` at the time of their call keeps `WF ∧ oneCell`.  `_partial`: `OpOK` is
+    `False` for `swap_edge_indices` / `swap_face_indices`, and excludes immediate fast-mode
+    `delete_face/edge/vertex` and fast-mode `collect_garbage` (builder K3's files). -/
+theorem history_keeps_cache_invariant_partial (k : Kernel) (ops : List Op) (hw : WF k) (h1 : k.oneCell = true)
+    (hr : HistoryOK k ops) : WF (k.run ops) ∧ (k.run ops).oneCell = true ∧ CacheInv (k.run ops) :=
+  have h := sinv_run_partial k ops ⟨hw, h1⟩ hr
+  ⟨h.wf, h.one, h.wf.cache⟩
 
 end OVM.Props.C04
